@@ -165,7 +165,8 @@ def add_landmarks(rng, im, region=None, classes=("PointCloud", "PointUndirectedG
         n = int(rng.integers(4, 9))
         s = gen.shape(rng, cls, d=d, n=n)
         s.points = rng.uniform(lo, np.maximum(hi, lo + 0.5), (n, d))
-        if rng.random() < 0.12 and cls == "PointCloud":
+        if rng.random() < 0.12 and cls == "PointCloud" and np.ptp(np.round(s.points), axis=0).min() >= 2:
+            # (rounded onto one row / column the group would have no extent: cropping to it is refused, rightly)
             # annotations stored as integer pixel positions (an integer-typed point cloud): moved like any other
             import menpo.shape as ms
             s = ms.PointCloud(np.round(s.points).astype(np.int64))
